@@ -78,17 +78,6 @@ def evsOfObs (obs : List (List String)) (gaps : List Gap) : List SessSpec.Ev := 
   let arrs := (List.range n).flatMap (fun k => (gaps.filter (·.k == k)).map (fun g => SessSpec.Ev.arr g.key g.id g.ts))
   return firsts ++ arrs ++ lates
 
-/-- known-finding classifier (C10): an on-time row arrives out of order *across a gap* — its own
-session is not the key's open head session (it lies a full timeout or more below the head's start,
-or inside the reach of a parked session of the key) -/
-def acrossGap (w : SWin) (k : Key) (ts : Int) (now : Int) : Bool :=
-  let wm' := Wm.updateEventTime w.wm ts now
-  if Wm.isLate wm' ts then false else
-  match head? w k with
-  | none => w.sessions.any (fun s => s.key == k && decide (ts < s.stop))
-  | some h => decide (ts + w.timeout ≤ h.start) ||
-              w.sessions.any (fun s => s.key == k && s.park != 0 && decide (ts < s.stop))
-
 /-- SQL-level stage for session windows (in-order input): oracle only, plus the aggregate columns. -/
 def runSql (c : Case) : CaseOut := Id.run do
   let ms : Int := 1000000
@@ -140,12 +129,12 @@ def run (c : Case) : CaseOut := Id.run do
       let key := match rest with | kh :: _ => (unhex kh).getD [] | [] => []
       match ts with
       | some t =>
-        if acrossGap w key t now then cls := "out-of-order-across-gap"
         let wm' := Wm.updateEventTime w.wm t now
         let tg := if Wm.isLate wm' t then (if (findTrig w key t wm'.cur).isSome && late > 0 then "late-absorbed" else "late-drop")
-                  else match head? w key with
-                    | none => "new-session"
-                    | some h => if h.stop ≤ t then "gap-parks-head" else (if t < h.start then "extends-head-backwards" else "extends-head")
+                  else match touched w key { id := id, ts := t } with
+                    | [] => (if w.sessions.any (fun s => s.key == key) then "new-session-beside-open-ones" else "new-session")
+                    | [h] => (if t < h.start then "extends-session-backwards" else "extends-session")
+                    | _ => "bridges-and-merges-sessions"
         unless tags.contains tg do tags := tg :: tags
       | none => unless tags.contains "no-timestamp" do tags := "no-timestamp" :: tags
       let (w', es) := addRow w key id ts now
@@ -155,10 +144,6 @@ def run (c : Case) : CaseOut := Id.run do
       flushed := false
     | "deliver" :: gs =>
       let gaps := gs.filterMap parseGap
-      for g in gaps do
-        match g.ts with
-        | some t => if acrossGap w g.key t now then cls := "out-of-order-across-gap"
-        | none => pure ()
       match deliver w gaps now with
       | none => obs := obs ++ [[["idle"]]]
       | some (w', es) =>
